@@ -220,7 +220,7 @@ def worker(acc, shard, nshards, tier, seed):
         for method in ('logistic', 'gaussian', 'exponential'):
             for r in (None, 0.5, 2):
                 for x0 in ((None, 0, 1) if method == 'logistic' else (None,)):
-                    for base in (None, 2):
+                    for base in (None, 2, 10):
                         for cq in (False, 0.5, (0.5, 0.2)):
                             for keep_sign in (False, True):
                                 check_squash(acc, np, sim, D, method, r, x0, base, cq, keep_sign)
@@ -239,7 +239,7 @@ def run(ctx):
     acc = core.run_sharded(worker, extra=(ctx.tier, ctx.seed))
     return core.finish(
         PROP, ctx.tier, ctx.seed, acc,
-        rule='all arrays over {0,.5,1,3} (x seed scale) of shapes (1,),(2,),(3,),(2,2)%s x method x r{None,.5,2} x a{None,.5,2} x x0{None,0,1} x base{None,2} x cover_quantile{False,.5,(.5,.2)} x keep_sign; '
+        rule='all arrays over {0,.5,1,3} (x seed scale) of shapes (1,),(2,),(3,),(2,2)%s x method x r{None,.5,2} x a{None,.5,2} x x0{None,0,1} x base{None,2,10} x cover_quantile{False,.5,(.5,.2)} x keep_sign; '
              'non-trivial = the array has at least two distinct values' % (',(4,),(2,3)' if ctx.thorough else ''),
         bounds={'values': [v * (1.0, 0.5, 2.0, 4.0)[ctx.seed % 4] for v in VALS], 'signed_arrays': '1-D arrays shifted down by one unit, with keep_sign'},
         assumptions=['documented formulas are those of the docstrings (reverse: (r - D) / r)',
